@@ -256,6 +256,96 @@ class Ctx:
         return self.record(rid, "R1", key, d, "violation", site_locs,
                            ["path avoiding the success edge of `%s`:" % require] + path_locs(f, p), key_detail=str(require))
 
+    def alive_at(self, rid, fn, acquire, uses, desc=None, via=1, floor=1):
+        """RAII scope rule: at every call matching `uses` in `fn`, the value returned by the call matching `acquire` (a guard whose Drop
+        releases something) is still alive on every path - not dropped, and not moved away except into the `uses` call itself.
+        A must-analysis: forward dataflow over the non-cleanup CFG with intersection at joins."""
+        F = self.F
+        d = desc or "%s: the guard returned by %s is alive at every %s" % (short(fn, 2), acquire, uses)
+        key = self.getfn(fn)
+        if key is None:
+            return self.lost(rid, "R1", fn, d, "function not found: " + fn)
+        f = F.fns[key]
+        blocks = f["blocks"]
+        arx, urx = pat(acquire), pat(uses)
+        G = set()
+        gen_blocks = {}
+        for bi, t in F.calls(key):
+            if call_matches(t, arx) and not t["dst"]["p"]:
+                G.add(t["dst"]["l"])
+                gen_blocks[bi] = t["dst"]["l"]
+        if not G:
+            return self.lost(rid, "R1", key, d, "no call matching %s in %s" % (acquire, key))
+        use_sites = [bi for bi, _how in self._call_blocks(key, urx, via)]
+        if len(use_sites) < floor:
+            return self.lost(rid, "R1", key, d, "%d call sites matching %s in %s (floor %d)" % (len(use_sites), uses, key, floor))
+        # locals the guard is moved into (`let g = x`, `Some(g)`, struct literals)
+        changed = True
+        while changed:
+            changed = False
+            for b in blocks:
+                if b["cleanup"]:
+                    continue
+                for st in b["st"]:
+                    if st["k"] == "assign" and not st["dst"]["p"] and st["dst"]["l"] not in G:
+                        rv = st["rv"]
+                        srcs = [rv["a"]] if rv["r"] in ("use", "cast") else rv.get("ops", []) if rv["r"] == "agg" else []
+                        if any(o.get("k") == "move" and not o["pl"]["p"] and o["pl"]["l"] in G for o in srcs):
+                            G.add(st["dst"]["l"])
+                            changed = True
+        n = len(blocks)
+        succ = succs(f)
+        TOP = None
+        IN = [TOP] * n
+        at_term = [TOP] * n
+
+        def transfer(bi, state):
+            b = blocks[bi]
+            for st in b["st"]:
+                if st["k"] == "assign":
+                    rv = st["rv"]
+                    srcs = [rv["a"]] if rv["r"] in ("use", "cast") else rv.get("ops", []) if rv["r"] == "agg" else []
+                    for o in srcs:
+                        if o.get("k") == "move" and not o["pl"]["p"] and o["pl"]["l"] in G:
+                            if not (not st["dst"]["p"] and st["dst"]["l"] in G):
+                                state = False  # moved into something we do not track (a field, a projection)
+            at_term[bi] = state if at_term[bi] is TOP else (at_term[bi] and state)
+            t = b["term"]
+            if t["k"] == "drop" and t["pl"]["l"] in G and not [p for p in t["pl"]["p"] if p != "*"]:
+                state = False
+            elif t["k"] == "call":
+                if any(a.get("k") == "move" and not a["pl"]["p"] and a["pl"]["l"] in G for a in t["args"]):
+                    state = False  # ownership left this frame
+                if bi in gen_blocks:
+                    state = True
+            return state
+
+        IN[0] = False
+        work = collections.deque([0])
+        OUT = [TOP] * n
+        while work:
+            bi = work.popleft()
+            if blocks[bi]["cleanup"]:
+                continue
+            at_term[bi] = TOP
+            o = transfer(bi, IN[bi])
+            if OUT[bi] is TOP or o != OUT[bi]:
+                OUT[bi] = o
+                for s2 in succ[bi]:
+                    if blocks[s2]["cleanup"]:
+                        continue
+                    new = o if IN[s2] is TOP else (IN[s2] and o)
+                    if IN[s2] is TOP or new != IN[s2]:
+                        IN[s2] = new
+                        work.append(s2)
+        self.stats["call_sites"] += len(use_sites)
+        bad = [bi for bi in use_sites if IN[bi] is not TOP and not at_term[bi]]
+        sites = [loc(blocks[bi]["term"]) for bi in use_sites]
+        if bad:
+            return self.record(rid, "R1", key, d, "violation", [loc(blocks[bi]["term"]) for bi in bad],
+                               ["the guard acquired by `%s` is dropped or moved away before this call on some path (its scope no longer spans the use)" % acquire], key_detail="alive:" + str(uses))
+        return self.record(rid, "R1", key, d, "hold", sites)
+
     def never(self, rid, fn, start, forbidden, forbidden_where=None, desc=None, dead_errors=False):
         """From `start` (block list or call pattern; None = entry) no call matching `forbidden` is reachable."""
         F = self.F
